@@ -126,7 +126,12 @@ Fixpoint process_x (c : config) (tmpl ls : list limiter) (cur : list arg) (pendi
          (args : list arg) (input_err : bool) (st : xs) : N * list (list arg) :=
   match args with
   | [] =>
-      if input_err then (1, log st)
+      if input_err then
+        (* the arguments read before the input went wrong are not lost: their command is run, then the error is reported *)
+        (if pending then match exec c st cur with
+                         | inl st' => (1, log st')
+                         | inr stop => stop end
+         else (1, log st))
       else if negb (c_r c) || pending then
         match exec c st cur with
         | inl st' => (status_ok (res st'), log st')
